@@ -36,13 +36,30 @@ def v2_jobs(prop, tier):
         cfgs += [("plain", "float", "int64", 1, "1,2,1"), ("plain", "nullable", "int64", 1, "2,1,2"),
                  ("dict", "nullable", "int64", 1, "2,2"), ("dict", "float", "int64", 1, "3,2"),
                  ("plain", "float", "double", 1, "3,3"), ("delta", "float", "int64", 0, "3,1")]
+    # loaded as categorical: a foreign file (any index width, general decoder) / a file of this library (byte-wide
+    # indices, fast path)
+    cfgs += [("dict", "cat", "int64", 1, "2,2", 4, 0), ("dict", "cat", "int64", 1, "2,2", 8, 1)]
+    if tier == "thorough":
+        cfgs += [("dict", "cat", "int64", 0, "2,2", 4, 0), ("dict", "cat", "int64", 1, "1,2", 8, 0),
+                 ("dict", "cat", "int64", 0, "2,1", 8, 1), ("dict", "cat", "int64", 1, "3,2", 2, 0)]
+    return _v2(prop, "h_read_col_v2", t, cfgs,
+               ["core.read_col", "core.read_data_page_v2 (flat column)", "converted_types.converts_inplace"])
+
+
+def _v2(prop, harness, t, cfgs, functions):
     out = []
-    for enc, outk, phys, opt, rows in cfgs:
-        j = ch(prop, "vf/pyshim/h_v2.py", "h_read_col_v2", t,
-               ["core.read_col", "core.read_data_page_v2 (flat column)", "converted_types.converts_inplace"],
-               shape=dict(encoding=enc, output=outk, physical=phys, optional=opt, page_rows=rows),
-               env=dict(VERIF_ENC=enc, VERIF_OUT=outk, VERIF_PHYS=phys, VERIF_OPTIONAL=opt, VERIF_PAGE_ROWS=rows))
-        j["name"] += "[%s,%s,%s,opt=%d,pages=%s]" % (enc, outk, phys, opt, rows)
+    for cfg in cfgs:
+        enc, outk, phys, opt, rows = cfg[:5]
+        width, selfmade = (cfg[5], cfg[6]) if len(cfg) > 5 else (4, 0)
+        shape = dict(encoding=enc, output=outk, physical=phys, optional=opt, page_rows=rows)
+        env = dict(VERIF_ENC=enc, VERIF_OUT=outk, VERIF_PHYS=phys, VERIF_OPTIONAL=opt, VERIF_PAGE_ROWS=rows)
+        tag = "[%s,%s,%s,opt=%d,pages=%s" % (enc, outk, phys, opt, rows)
+        if outk == "cat":
+            shape.update(index_width=width, selfmade=selfmade)
+            env.update(VERIF_WIDTH=width, VERIF_SELFMADE=selfmade)
+            tag += ",width=%d,selfmade=%d" % (width, selfmade)
+        j = ch(prop, "vf/pyshim/h_v2.py", harness, t, functions, shape=shape, env=env)
+        j["name"] += tag + "]"
         out.append(j)
     return out
 
@@ -56,15 +73,12 @@ def v2_masked_jobs(prop, tier):
         cfgs += [("plain", "float", "double", 1, "2,2"), ("plain", "float", "int64", 0, "2,2"),
                  ("plain", "nullable", "int64", 1, "1,2"), ("dict", "float", "int64", 1, "2,2"),
                  ("dict", "nullable", "int64", 1, "1,2"), ("plain", "float", "int64", 1, "1,1,2")]
-    out = []
-    for enc, outk, phys, opt, rows in cfgs:
-        j = ch(prop, "vf/pyshim/h_v2.py", "h_read_col_v2_masked", t,
-               ["core.read_col (row mask over v2 pages)", "core.read_data_page_v2 (flat column)"],
-               shape=dict(encoding=enc, output=outk, physical=phys, optional=opt, page_rows=rows),
-               env=dict(VERIF_ENC=enc, VERIF_OUT=outk, VERIF_PHYS=phys, VERIF_OPTIONAL=opt, VERIF_PAGE_ROWS=rows))
-        j["name"] += "[%s,%s,%s,opt=%d,pages=%s]" % (enc, outk, phys, opt, rows)
-        out.append(j)
-    return out
+    cfgs += [("dict", "cat", "int64", 1, "2,1", 4, 0), ("dict", "cat", "int64", 1, "2,1", 8, 1)]
+    if tier == "thorough":
+        cfgs += [("dict", "cat", "int64", 0, "2,1", 8, 1), ("dict", "cat", "int64", 1, "1,2", 2, 0),
+                 ("dict", "cat", "int64", 1, "2,2", 8, 1)]
+    return _v2(prop, "h_read_col_v2_masked", t, cfgs,
+               ["core.read_col (row mask over v2 pages)", "core.read_data_page_v2 (flat column)"])
 
 
 def page_jobs(prop, tier):
